@@ -8,6 +8,7 @@ import CkbVerif.Lemmas.InflightPolicy
 import CkbVerif.Lemmas.Locate
 import CkbVerif.Lemmas.Analyzer
 import CkbVerif.Model.HeadersSync
+import CkbVerif.Model.Fetch
 
 /-!
 # C17 — sync bookkeeping structures behave like their simple mathematical models
@@ -1655,6 +1656,121 @@ example : run { limit := 1 }
      .val (some 30)] := by decide
 
 end HeaderMap
+
+/-! ## Block fetcher: window arithmetic and its own last-common writes -/
+section Fetch
+open CkbVerif.Skip CkbVerif.Fetch CkbVerif.Inflight CkbVerif.Gen.Sync
+
+/-- One span of the scan: at most one header is taken per step; the peers change at most by ONE
+`set_last_common_header`, and then to a header that is stored and valid and is reached from the span's
+top header by parent links (an ancestor of the peer's best known header when the top is one). -/
+theorem scanSpan_spec (e : Env) (peer bestN : Nat) : ∀ (k : Nat) (header : Hdr) (st : St),
+    ((scanSpan e peer bestN k header st).2.2.1.length ≤ st.2.1.length + k) ∧
+    (st.2.1.length ≤ (scanSpan e peer bestN k header st).2.2.1.length) ∧
+    ((scanSpan e peer bestN k header st).2.2.2.1 = st.2.2.1 ∨
+      ∃ j t, j < k ∧ walk e.hdr j header = some t ∧ e.stored t.id = true ∧ e.valid t.id = true ∧
+        (scanSpan e peer bestN k header st).2.2.2.1 = st.2.2.1.setLastCommon peer (t.number, t.id)) := by
+  intro k
+  induction k with
+  | zero => intro header st; simp [scanSpan]
+  | succ k ih =>
+    intro header st
+    obtain ⟨infl, fetched, ps, endN⟩ := st
+    unfold scanSpan
+    by_cases hs : e.stored header.id = true
+    · simp only [hs, if_true]
+      refine ⟨by simp, by simp, ?_⟩
+      by_cases hv : e.valid header.id = true
+      · right
+        exact ⟨0, header, by omega, by simp [walk], hs, hv, by simp [hv]⟩
+      · left; simp [hv]
+    · simp only [hs, Bool.false_eq_true, if_false]
+      cases hp : e.hdr header.parent with
+      | none =>
+        simp only
+        refine ⟨?_, ?_, by first | exact Or.inl rfl | simp⟩
+        · split
+          · simp
+          · split <;> simp <;> omega
+        · split
+          · simp
+          · split <;> simp
+      | some p =>
+        simp only
+        generalize hr : (if e.received header.id = true then (infl, fetched)
+          else if (Inflight.insert infl e.now peer ⟨header.number, header.id⟩).2 = true then
+            ((Inflight.insert infl e.now peer ⟨header.number, header.id⟩).1, fetched ++ [header])
+          else ((Inflight.insert infl e.now peer ⟨header.number, header.id⟩).1, fetched)) = r
+        have hlen : fetched.length ≤ r.2.length ∧ r.2.length ≤ fetched.length + 1 := by
+          rw [← hr]
+          split
+          · simp
+          · split <;> simp
+        obtain ⟨i1, i2, i3⟩ := ih p (r.1, r.2, ps, endN)
+        refine ⟨by simp only at i1 ⊢; omega, by simp only at i2 ⊢; omega, ?_⟩
+        rcases i3 with h | ⟨j, t, hj, hw, h1, h2, h3⟩
+        · left; exact h
+        · right
+          exact ⟨j + 1, t, by omega, by simp [walk, hp, hw], h1, h2, h3⟩
+
+/-- The window arithmetic: the loop never collects more than `n_fetch` headers. -/
+theorem fetchLoop_count (e : Env) (peer : Nat) (best : NH) (nFetch : Nat) : ∀ (fuel start : Nat) (st : St),
+    st.2.1.length ≤ nFetch → (fetchLoop e peer best nFetch fuel start st).2.2.1.length ≤ nFetch := by
+  intro fuel
+  induction fuel with
+  | zero => intro start st h; simpa [fetchLoop] using h
+  | succ fuel ih =>
+    intro start st h
+    obtain ⟨infl, fetched, ps, endN⟩ := st
+    unfold fetchLoop
+    simp only []
+    split
+    · have hmin : min (endN - start + 1) (nFetch - fetched.length) ≤ nFetch - fetched.length := Nat.min_le_right _ _
+      generalize min (endN - start + 1) (nFetch - fetched.length) = span at hmin
+      cases ha : e.anc best.2 (start + span - 1) with
+      | none => simpa using h
+      | some header =>
+        simp only
+        have hsp := (scanSpan_spec e peer best.1 span header (infl, fetched, ps, endN)).1
+        simp only at hsp h
+        have hb : (scanSpan e peer best.1 span header (infl, fetched, ps, endN)).2.2.1.length ≤ nFetch := by omega
+        generalize scanSpan e peer best.1 span header (infl, fetched, ps, endN) = r at hb
+        obtain ⟨ok, st'⟩ := r
+        cases ok
+        · simpa using hb
+        · exact ih _ st' hb
+    · simpa using h
+
+/-- … so `fetch` never asks a peer for more than its scheduler allows (`peer_can_fetch_count`, read before
+the scan) nor for more than the window `start ..= end` holds: `n_fetch = min(end - start + 1, can_fetch)`. -/
+theorem fetch_window_bound (e : Env) (peer : Nat) (best : NH) (fuel start endN : Nat) (infl : Inflight)
+    (ps : PeersSt) :
+    (fetchLoop e peer best (min (endN - start + 1) (peerCanFetch infl peer)) fuel start
+        (infl, [], ps, endN)).2.2.1.length ≤ peerCanFetch infl peer ∧
+    (fetchLoop e peer best (min (endN - start + 1) (peerCanFetch infl peer)) fuel start
+        (infl, [], ps, endN)).2.2.1.length ≤ endN - start + 1 := by
+  have h := fetchLoop_count e peer best (min (endN - start + 1) (peerCanFetch infl peer)) fuel start
+    (infl, [], ps, endN) (Nat.zero_le _)
+  exact ⟨Nat.le_trans h (Nat.min_le_right _ _), Nat.le_trans h (Nat.min_le_left _ _)⟩
+
+/-- Witness of the candidate finding "fetch forgets `fetch_end` once the scan meets a stored block": our
+chain is 0..2 (stored, valid), the peer's best known header 5 sits on the header-only chain 3,4,5 above
+it, its last common header is block 1, and `fetch_end = 2` (so `end = 2`, `n_fetch = 1`). The first span
+meets the stored block 2, the code recomputes `end = min(best.number, 2 + BLOCK_DOWNLOAD_WINDOW) = 5`
+without `fetch_end`, and the next span requests header 3 — above `fetch_end`. -/
+def exFetchEnv : Env :=
+  { anc := fun base n => if base = 5 ∧ n ≤ 5 then some ⟨n, n, n - 1, none⟩ else none,
+    hdr := fun i => if i ≤ 5 then some ⟨i, i, i - 1, none⟩ else none,
+    stored := fun i => decide (i ≤ 2), valid := fun i => decide (i ≤ 2), received := fun _ => false,
+    numOnMain := fun i => if i ≤ 2 then some i else none, mainHash := fun n => if n ≤ 2 then some n else none,
+    tipNumber := 2, unverifiedTip := 2, totalDifficulty := 6, ibd := false, now := 0 }
+
+theorem fetch_overruns_fetch_end :
+    let r := fetchLoop exFetchEnv 7 (5, 5) 1 7 2 ({}, [], [(7, { best := some ⟨5, 5, 12⟩, lastCommon := some (1, 1) })], 2)
+    r.1 = true ∧ r.2.2.1.map (·.number) = [3] ∧ r.2.2.2.2 = 5 ∧
+      (r.2.2.2.1.get 7).bind (·.lastCommon) = some (2, 2) := by decide
+
+end Fetch
 
 /-! ## Headers-sync timeout controller -/
 section HeadersSync
